@@ -1192,7 +1192,7 @@ func c06DisconnectObserved(c *Ctx) {
 				sprintf("%s waits for the end of its connection only on contexts that are not known to end with the request (%s): when the peer disconnects the handler stays blocked, and the goroutines and the session it owns are never released", fname(fn), why))
 		})
 	}
-	if n < 2 {
-		c.R.Break("R-disconnect-observed: only %d waits on a context found in HTTP handlers", n)
+	if n < 1 {
+		c.R.Break("R-disconnect-observed: no wait on a context found in HTTP handlers")
 	}
 }
